@@ -342,8 +342,11 @@ func limitSleepShape(c *Ctx, lr *limitRoles, rule string, strict bool) {
 		s = s.StripConv()
 		if par, ok := s.V.(*ssa.Parameter); ok && s.Op == "param" {
 			var out []*Sym
-			for _, cs := range p.CallSites(par.Parent()) {
-				a := p.Sym(cs.Common().Args[paramIndex(par.Parent(), par)]).StripConv()
+			for _, sa := range p.CallSitesX(par.Parent()) {
+				if paramIndex(par.Parent(), par) >= len(sa.Args) {
+					continue
+				}
+				a := p.Sym(sa.Args[paramIndex(par.Parent(), par)]).StripConv()
 				if a.Op == "extract" && a.Args[0].Op == "call" {
 					if call, ok := a.Args[0].V.(*ssa.Call); ok {
 						if cal := p.Callee(call); cal != nil && p.IsProduct(cal) {
@@ -407,7 +410,7 @@ func limitSleepShape(c *Ctx, lr *limitRoles, rule string, strict bool) {
 		for _, b := range fn.Blocks {
 			for _, in := range b.Instrs {
 				if call, ok := in.(*ssa.Call); ok {
-					if cal := p.Callee(call); cal != nil && (cal == lr.batch || p.Reach(cal)[lr.batch]) {
+					if cal := p.CalleeX(call); cal != nil && (cal == lr.batch || p.Reach(cal)[lr.batch]) {
 						batchCall = in
 					}
 				}
@@ -585,12 +588,13 @@ func runC04(c *Ctx) {
 				if !ok {
 					continue
 				}
-				mc, ok := st.Val.(*ssa.MakeChan)
-				if !ok {
+				// (the make may sit in a pure private constructor of a named channel type: newSink(1 + cap(opts.Input)))
+				xs := p.SymX(st.Val)
+				if xs.Op != "make" || !strings.HasPrefix(xs.Name, "chan#") || len(xs.Args) != 1 {
 					what = "output is not a freshly made channel"
 					continue
 				}
-				sz := deepStrip(p.Sym(mc.Size))
+				sz := deepStrip(xs.Args[0])
 				what = "capacity " + sz.String()
 				isCapInput := func(x *Sym) bool {
 					if x.Op == "call" && x.Name == "cap" && len(x.Args) == 1 {
